@@ -11,7 +11,8 @@ RULE = ("exhaustive at the bound: write_all / read_exact with request lengths 0.
         "trait, embedded_io_async trait) x (async) every Pending pattern in {0,1,2}^calls for <= %d calls, 3 random "
         "patterns above; write / flush / read with every reported count 0..len+1 and Err x 4 entry points x Pending "
         "0,1,2; buffer contents, bytes stored by the interface (exact, short, long: scribbling beyond the reported "
-        "count), error codes, addresses random from the seed; real BufferOperation on a scripted (Async)BufferInterface "
+        "count); plus LONG requests (255..70000 bytes, thorough: ..200000) through every entry point with the interface "
+        "taking everything, all but one byte, 65535, half or a random count per call; error codes, addresses random from the seed; real BufferOperation on a scripted (Async)BufferInterface "
         "vs extracted Coq model (calls with slice contents, result, caller's slice afterwards, panics, poll counts); "
         "distinct = (entry point, operation, request length, per-call slice lengths, outcome kind) classes")
 
@@ -21,6 +22,8 @@ def run(ctx):
     rng = random.Random(ctx.seed)
     maxlen, fullp = (6, 4) if ctx.tier == "quick" else (9, 6)
     lines = pc.buf_cases(rng, maxlen, fullp)
+    # long requests (seed C10-8: an async write clamped to a 16-bit transfer counter)
+    lines += pc.buf_big_cases(rng, pc.BIG_LENGTHS if ctx.tier == "quick" else pc.BIG_LENGTHS + (131071, 131072, 200000))
     stats, diffs, err = pc.correspondence(ctx, lines, "B")
     pc.report(ctx, info, stats, diffs, err, "C10", THEOREMS, RULE % (maxlen, fullp),
               "buffer.rs disagrees with the proven model of the embedded-io contracts (calls, result, delivered bytes or panic)",
